@@ -22,11 +22,25 @@
    3. bridge: the driver's list arithmetic (`mulT`, `transpose`, `sub`, `residual`) is Mathlib's matrix
       arithmetic, so "residual ≤ t" printed by the driver is a statement about `L * Lᵀ - Σ`;
    4. use of the factor: mean and covariance of `m + L z` (any linear expectation), and of the weighted
-      sum of independent components (`Σ wᵢ² Σᵢ`).
+      sum of independent components (`Σ wᵢ² Σᵢ`);
+   5. composition with C02 Part IV / C03 (over ℝ): the matrix the sampler is handed is the GP posterior
+      covariance `Σ = K** − K* A⁻¹ K*ᵀ`, which IS positive semi-definite for libsigopt's radial kernels and the
+      multitask tensor kernel, so the PSD hypothesis of `fallback_factor_of_svd` is discharged
+      (`gp_posterior_fallback_factor`, `multitask_posterior_fallback_factor`; hypotheses left: `alpha ≥ 0`,
+      noise `> 0` — or `≥ 0` and `A.PosDef` —, `A * Ainv = 1`, scipy's SVD and QR contracts); the draws
+      `m + Rᵀ z` then have covariance equal to the posterior covariance (`gp_posterior_samples_cov`,
+      `multitask_posterior_samples_cov`); the covariance `Σ_g w_g² Σ_g` of a GP sum is PSD, the fallback factors
+      it, and component-wise sampling reproduces it (`gpsum_posterior_cov_posSemidef`,
+      `gpsum_posterior_fallback_factor`, `gpsum_posterior_samples_cov`).
+      Not composed: the executable ℚ-model of layer 2 (`sampleFactor_reproduces_of_svd` keeps its PSD
+      hypothesis on rational vectors) — kernel values are `exp`/`sqrt` expressions, the model's matrices are the
+      rational floats the library computed, and PSD is not stable under rounding (same limit as C02 Part II).
 -/
 import Model.C17
 import Proofs.C17
 import Proofs.C17Svd
+import Proofs.C17Compose
+import Properties.C02
 import Mathlib.Data.Matrix.Mul
 import Mathlib.Data.Matrix.Diagonal
 import Mathlib.Data.Matrix.Basic
@@ -530,5 +544,308 @@ example : ∃ (P : Expectation Bool) (z : Fin 1 → Bool → ℝ),
     simp [covMat, covar, centered]
 
 end moments
+
+/-! ### 5. Composition with C02/C03: the matrix handed to the sampler IS positive semi-definite
+
+`fallback_factor_of_svd` assumes `Σ` symmetric positive semi-definite.  The sampler
+(`compute_cholesky_for_gp_sampling`) is handed the GP posterior covariance
+`Σ = K** − K* A⁻¹ K*ᵀ = C02.Spec.cov K** K* A⁻¹`, and for libsigopt's kernels that matrix is positive
+semi-definite by Properties/C02.lean Part IV (which in turn rests on Properties/C03.lean).  So the PSD
+hypothesis is discharged: what is left are the third-party contracts (scipy's `svd`, `qr`; `A * Ainv = 1`
+from its Cholesky solve) and the parameter ranges `alpha ≥ 0`, `noise > 0` (or `noise ≥ 0` and `A.PosDef`).
+
+Notation as in C02 Part IV: observed points `x i`, query points `xs j` (`Fin d → ℝ`, passed to the list
+kernel through `List.ofFn`), `k = Kernels.kernel kind alpha (List.ofFn l)`,
+`K(X,X) = gramMatrix k X`, `K* = crossMatrix k Q X`, `K** = gramMatrix k Q`,
+`A = C02.Spec.noisy K(X,X) noise = K(X,X) + diag(noise)`.  The covariance is named `S` and pinned down by
+the hypothesis `hS : S = C02.Spec.cov …`. -/
+
+section compose
+open Kernels (gramMatrix)
+open C02 (crossMatrix)
+
+variable {n q d : ℕ} {m : Type*} [Fintype m] [DecidableEq m]
+
+/-- 1. Radial kernel (square exponential, C0/C2/C4 Matérn), any dimension, length scales and points,
+    `alpha ≥ 0`, every noise variance `> 0`, `A * Ainv = 1`.  `S` is the posterior covariance at the query
+    points.  From scipy's contracts on `S` — SVD `S = U diag(E) Vᵀ`, `UᵀU = VᵀV = 1`, `E ≥ 0`; QR
+    `(U diag √E)ᵀ = Q R`, `QᵀQ = 1` — the factor `L = Rᵀ` returned by the fallback satisfies `L Lᵀ = S`.
+    No positive semi-definiteness hypothesis. -/
+theorem gp_posterior_fallback_factor (kind : Kernels.Kind) {alpha : ℝ} (ha : 0 ≤ alpha) (l : Fin d → ℝ)
+    (x : Fin n → Fin d → ℝ) (xs : Fin q → Fin d → ℝ) {noise : Fin n → ℝ} (hn : ∀ i, 0 < noise i)
+    {Ainv : Matrix (Fin n) (Fin n) ℝ}
+    (hA : C02.Spec.noisy (gramMatrix (Kernels.kernel kind alpha (List.ofFn l)) (fun i => List.ofFn (x i)))
+      noise * Ainv = 1)
+    (S : Matrix (Fin q) (Fin q) ℝ)
+    (hS : S = C02.Spec.cov
+      (gramMatrix (Kernels.kernel kind alpha (List.ofFn l)) (fun j => List.ofFn (xs j)))
+      (crossMatrix (Kernels.kernel kind alpha (List.ofFn l)) (fun j => List.ofFn (xs j))
+        (fun i => List.ofFn (x i)))
+      Ainv)
+    (U V : Matrix (Fin q) (Fin q) ℝ) (E : Fin q → ℝ) (Q : Matrix (Fin q) m ℝ) (R : Matrix m (Fin q) ℝ)
+    (hsvd : S = U * diagonal E * Vᵀ) (hU : Uᵀ * U = 1) (hV : Vᵀ * V = 1) (hE : ∀ i, 0 ≤ E i)
+    (hQR : (U * diagonal (fun i => Real.sqrt (E i)))ᵀ = Q * R) (hQ : Qᵀ * Q = 1) :
+    Rᵀ * Rᵀᵀ = S :=
+  fallback_factor_of_svd S U V E Q R
+    (hS ▸ C02.radial_post_cov_posSemidef_of_noise_pos kind ha l x xs hn hA) hsvd hU hV hE hQR hQ
+
+/-- 1′. The same with noise `≥ 0` (zero noise allowed) and `A` positive definite — what a successful
+    Cholesky factorisation of `A` certifies. -/
+theorem gp_posterior_fallback_factor_of_posDef (kind : Kernels.Kind) {alpha : ℝ} (ha : 0 ≤ alpha)
+    (l : Fin d → ℝ) (x : Fin n → Fin d → ℝ) (xs : Fin q → Fin d → ℝ) {noise : Fin n → ℝ}
+    (hn : ∀ i, 0 ≤ noise i) {Ainv : Matrix (Fin n) (Fin n) ℝ}
+    (hA : C02.Spec.noisy (gramMatrix (Kernels.kernel kind alpha (List.ofFn l)) (fun i => List.ofFn (x i)))
+      noise * Ainv = 1)
+    (hpd : (C02.Spec.noisy (gramMatrix (Kernels.kernel kind alpha (List.ofFn l))
+      (fun i => List.ofFn (x i))) noise).PosDef)
+    (S : Matrix (Fin q) (Fin q) ℝ)
+    (hS : S = C02.Spec.cov
+      (gramMatrix (Kernels.kernel kind alpha (List.ofFn l)) (fun j => List.ofFn (xs j)))
+      (crossMatrix (Kernels.kernel kind alpha (List.ofFn l)) (fun j => List.ofFn (xs j))
+        (fun i => List.ofFn (x i)))
+      Ainv)
+    (U V : Matrix (Fin q) (Fin q) ℝ) (E : Fin q → ℝ) (Q : Matrix (Fin q) m ℝ) (R : Matrix m (Fin q) ℝ)
+    (hsvd : S = U * diagonal E * Vᵀ) (hU : Uᵀ * U = 1) (hV : Vᵀ * V = 1) (hE : ∀ i, 0 ≤ E i)
+    (hQR : (U * diagonal (fun i => Real.sqrt (E i)))ᵀ = Q * R) (hQ : Qᵀ * Q = 1) :
+    Rᵀ * Rᵀᵀ = S :=
+  fallback_factor_of_svd S U V E Q R
+    (hS ▸ C02.radial_post_cov_posSemidef kind ha l x xs hn hA hpd) hsvd hU hV hE hQR hQ
+
+/-- 2. Multitask tensor kernel (physical kernel × task kernel; a point is its physical coordinates followed
+    by the task), every noise variance `> 0`. -/
+theorem multitask_posterior_fallback_factor (kp kt : Kernels.Kind) {alpha : ℝ} (ha : 0 ≤ alpha)
+    (l : Fin d → ℝ) (lt : ℝ) (x : Fin n → Fin d → ℝ) (t : Fin n → ℝ) (xs : Fin q → Fin d → ℝ)
+    (ts : Fin q → ℝ) {noise : Fin n → ℝ} (hn : ∀ i, 0 < noise i) {Ainv : Matrix (Fin n) (Fin n) ℝ}
+    (hA : C02.Spec.noisy (gramMatrix (Kernels.multitask kp kt alpha (List.ofFn l) lt)
+      (fun i => List.ofFn (x i) ++ [t i])) noise * Ainv = 1)
+    (S : Matrix (Fin q) (Fin q) ℝ)
+    (hS : S = C02.Spec.cov
+      (gramMatrix (Kernels.multitask kp kt alpha (List.ofFn l) lt) (fun j => List.ofFn (xs j) ++ [ts j]))
+      (crossMatrix (Kernels.multitask kp kt alpha (List.ofFn l) lt) (fun j => List.ofFn (xs j) ++ [ts j])
+        (fun i => List.ofFn (x i) ++ [t i]))
+      Ainv)
+    (U V : Matrix (Fin q) (Fin q) ℝ) (E : Fin q → ℝ) (Q : Matrix (Fin q) m ℝ) (R : Matrix m (Fin q) ℝ)
+    (hsvd : S = U * diagonal E * Vᵀ) (hU : Uᵀ * U = 1) (hV : Vᵀ * V = 1) (hE : ∀ i, 0 ≤ E i)
+    (hQR : (U * diagonal (fun i => Real.sqrt (E i)))ᵀ = Q * R) (hQ : Qᵀ * Q = 1) :
+    Rᵀ * Rᵀᵀ = S :=
+  fallback_factor_of_svd S U V E Q R
+    (hS ▸ multitask_post_cov_posSemidef_of_noise_pos kp kt ha l lt x t xs ts hn hA) hsvd hU hV hE hQR hQ
+
+/-- 2′. Multitask kernel with noise `≥ 0` and `A` positive definite. -/
+theorem multitask_posterior_fallback_factor_of_posDef (kp kt : Kernels.Kind) {alpha : ℝ} (ha : 0 ≤ alpha)
+    (l : Fin d → ℝ) (lt : ℝ) (x : Fin n → Fin d → ℝ) (t : Fin n → ℝ) (xs : Fin q → Fin d → ℝ)
+    (ts : Fin q → ℝ) {noise : Fin n → ℝ} (hn : ∀ i, 0 ≤ noise i) {Ainv : Matrix (Fin n) (Fin n) ℝ}
+    (hA : C02.Spec.noisy (gramMatrix (Kernels.multitask kp kt alpha (List.ofFn l) lt)
+      (fun i => List.ofFn (x i) ++ [t i])) noise * Ainv = 1)
+    (hpd : (C02.Spec.noisy (gramMatrix (Kernels.multitask kp kt alpha (List.ofFn l) lt)
+      (fun i => List.ofFn (x i) ++ [t i])) noise).PosDef)
+    (S : Matrix (Fin q) (Fin q) ℝ)
+    (hS : S = C02.Spec.cov
+      (gramMatrix (Kernels.multitask kp kt alpha (List.ofFn l) lt) (fun j => List.ofFn (xs j) ++ [ts j]))
+      (crossMatrix (Kernels.multitask kp kt alpha (List.ofFn l) lt) (fun j => List.ofFn (xs j) ++ [ts j])
+        (fun i => List.ofFn (x i) ++ [t i]))
+      Ainv)
+    (U V : Matrix (Fin q) (Fin q) ℝ) (E : Fin q → ℝ) (Q : Matrix (Fin q) m ℝ) (R : Matrix m (Fin q) ℝ)
+    (hsvd : S = U * diagonal E * Vᵀ) (hU : Uᵀ * U = 1) (hV : Vᵀ * V = 1) (hE : ∀ i, 0 ≤ E i)
+    (hQR : (U * diagonal (fun i => Real.sqrt (E i)))ᵀ = Q * R) (hQ : Qᵀ * Q = 1) :
+    Rᵀ * Rᵀᵀ = S :=
+  fallback_factor_of_svd S U V E Q R
+    (hS ▸ C02.multitask_post_cov_posSemidef kp kt ha l lt x t xs ts hn hA hpd) hsvd hU hV hE hQR hQ
+
+/-- 3. End to end for one GP: posterior draws `mean + L z` with the fallback's factor `L = Rᵀ` and a
+    standardised latent vector `z` (mean 0, covariance 1) have mean `mean` and covariance EQUAL TO THE
+    POSTERIOR COVARIANCE `K** − K* A⁻¹ K*ᵀ` of the radial-kernel GP.  Hypotheses: parameter ranges,
+    `A * Ainv = 1`, scipy's SVD and QR contracts, standardised `z`; nothing about `S` being PSD. -/
+theorem gp_posterior_samples_cov {Ω : Type*} (P : Expectation Ω)
+    (kind : Kernels.Kind) {alpha : ℝ} (ha : 0 ≤ alpha) (l : Fin d → ℝ)
+    (x : Fin n → Fin d → ℝ) (xs : Fin q → Fin d → ℝ) {noise : Fin n → ℝ} (hn : ∀ i, 0 < noise i)
+    {Ainv : Matrix (Fin n) (Fin n) ℝ}
+    (hA : C02.Spec.noisy (gramMatrix (Kernels.kernel kind alpha (List.ofFn l)) (fun i => List.ofFn (x i)))
+      noise * Ainv = 1)
+    (U V : Matrix (Fin q) (Fin q) ℝ) (E : Fin q → ℝ) (Q : Matrix (Fin q) m ℝ) (R : Matrix m (Fin q) ℝ)
+    (hsvd : C02.Spec.cov
+      (gramMatrix (Kernels.kernel kind alpha (List.ofFn l)) (fun j => List.ofFn (xs j)))
+      (crossMatrix (Kernels.kernel kind alpha (List.ofFn l)) (fun j => List.ofFn (xs j))
+        (fun i => List.ofFn (x i)))
+      Ainv = U * diagonal E * Vᵀ)
+    (hU : Uᵀ * U = 1) (hV : Vᵀ * V = 1) (hE : ∀ i, 0 ≤ E i)
+    (hQR : (U * diagonal (fun i => Real.sqrt (E i)))ᵀ = Q * R) (hQ : Qᵀ * Q = 1)
+    (mean : Fin q → ℝ) (z : m → Ω → ℝ) (hz0 : meanVec P z = 0) (hz1 : covMat P z = 1) :
+    meanVec P (affine mean Rᵀ z) = mean ∧
+      covMat P (affine mean Rᵀ z) = C02.Spec.cov
+        (gramMatrix (Kernels.kernel kind alpha (List.ofFn l)) (fun j => List.ofFn (xs j)))
+        (crossMatrix (Kernels.kernel kind alpha (List.ofFn l)) (fun j => List.ofFn (xs j))
+          (fun i => List.ofFn (x i)))
+        Ainv :=
+  sample_moments P mean Rᵀ _ z hz0 hz1
+    (gp_posterior_fallback_factor kind ha l x xs hn hA _ rfl U V E Q R hsvd hU hV hE hQR hQ)
+
+/-- 3′. The same for the multitask tensor kernel. -/
+theorem multitask_posterior_samples_cov {Ω : Type*} (P : Expectation Ω)
+    (kp kt : Kernels.Kind) {alpha : ℝ} (ha : 0 ≤ alpha)
+    (l : Fin d → ℝ) (lt : ℝ) (x : Fin n → Fin d → ℝ) (t : Fin n → ℝ) (xs : Fin q → Fin d → ℝ)
+    (ts : Fin q → ℝ) {noise : Fin n → ℝ} (hn : ∀ i, 0 < noise i) {Ainv : Matrix (Fin n) (Fin n) ℝ}
+    (hA : C02.Spec.noisy (gramMatrix (Kernels.multitask kp kt alpha (List.ofFn l) lt)
+      (fun i => List.ofFn (x i) ++ [t i])) noise * Ainv = 1)
+    (U V : Matrix (Fin q) (Fin q) ℝ) (E : Fin q → ℝ) (Q : Matrix (Fin q) m ℝ) (R : Matrix m (Fin q) ℝ)
+    (hsvd : C02.Spec.cov
+      (gramMatrix (Kernels.multitask kp kt alpha (List.ofFn l) lt) (fun j => List.ofFn (xs j) ++ [ts j]))
+      (crossMatrix (Kernels.multitask kp kt alpha (List.ofFn l) lt) (fun j => List.ofFn (xs j) ++ [ts j])
+        (fun i => List.ofFn (x i) ++ [t i]))
+      Ainv = U * diagonal E * Vᵀ)
+    (hU : Uᵀ * U = 1) (hV : Vᵀ * V = 1) (hE : ∀ i, 0 ≤ E i)
+    (hQR : (U * diagonal (fun i => Real.sqrt (E i)))ᵀ = Q * R) (hQ : Qᵀ * Q = 1)
+    (mean : Fin q → ℝ) (z : m → Ω → ℝ) (hz0 : meanVec P z = 0) (hz1 : covMat P z = 1) :
+    meanVec P (affine mean Rᵀ z) = mean ∧
+      covMat P (affine mean Rᵀ z) = C02.Spec.cov
+        (gramMatrix (Kernels.multitask kp kt alpha (List.ofFn l) lt) (fun j => List.ofFn (xs j) ++ [ts j]))
+        (crossMatrix (Kernels.multitask kp kt alpha (List.ofFn l) lt) (fun j => List.ofFn (xs j) ++ [ts j])
+          (fun i => List.ofFn (x i) ++ [t i]))
+        Ainv :=
+  sample_moments P mean Rᵀ _ z hz0 hz1
+    (multitask_posterior_fallback_factor kp kt ha l lt x t xs ts hn hA _ rfl U V E Q R hsvd hU hV hE hQR hQ)
+
+/-! #### GP sums
+
+`GaussianProcessSum.compute_covariance_of_points` reports `Σ_g w_g² Σ_g` (`C02.Spec.sumCov`), each `Σ_g` the
+posterior covariance of a component GP at the SAME query points.  The components may differ in everything
+else: kernel kind, `alpha`, length scales, number and position of observed points, noise. -/
+
+variable {γ : Type*} [Fintype γ]
+
+/-- 4a. The covariance reported by a sum of radial-kernel GPs is positive semi-definite: each component's
+    posterior covariance is (C02 Part IV) and `C02.Spec.gpsum_cov_posSemidef` adds them up. -/
+theorem gpsum_posterior_cov_posSemidef (w : γ → ℝ) (kind : γ → Kernels.Kind) {alpha : γ → ℝ}
+    (ha : ∀ g, 0 ≤ alpha g) (l : γ → Fin d → ℝ) (nobs : γ → ℕ) (x : ∀ g, Fin (nobs g) → Fin d → ℝ)
+    (xs : Fin q → Fin d → ℝ) {noise : ∀ g, Fin (nobs g) → ℝ} (hn : ∀ g i, 0 < noise g i)
+    {Ainv : ∀ g, Matrix (Fin (nobs g)) (Fin (nobs g)) ℝ}
+    (hA : ∀ g, C02.Spec.noisy (gramMatrix (Kernels.kernel (kind g) (alpha g) (List.ofFn (l g)))
+      (fun i => List.ofFn (x g i))) (noise g) * Ainv g = 1) :
+    (C02.Spec.sumCov w fun g => C02.Spec.cov
+      (gramMatrix (Kernels.kernel (kind g) (alpha g) (List.ofFn (l g))) (fun j => List.ofFn (xs j)))
+      (crossMatrix (Kernels.kernel (kind g) (alpha g) (List.ofFn (l g))) (fun j => List.ofFn (xs j))
+        (fun i => List.ofFn (x g i)))
+      (Ainv g)).PosSemidef := by
+  classical
+  exact C02.Spec.gpsum_cov_posSemidef w _ fun g =>
+    C02.radial_post_cov_posSemidef_of_noise_pos (kind g) (ha g) (l g) (x g) xs (hn g) (hA g)
+
+/-- 4b. … hence the fallback, handed the covariance of the GP sum, returns a factor of it. -/
+theorem gpsum_posterior_fallback_factor (w : γ → ℝ) (kind : γ → Kernels.Kind) {alpha : γ → ℝ}
+    (ha : ∀ g, 0 ≤ alpha g) (l : γ → Fin d → ℝ) (nobs : γ → ℕ) (x : ∀ g, Fin (nobs g) → Fin d → ℝ)
+    (xs : Fin q → Fin d → ℝ) {noise : ∀ g, Fin (nobs g) → ℝ} (hn : ∀ g i, 0 < noise g i)
+    {Ainv : ∀ g, Matrix (Fin (nobs g)) (Fin (nobs g)) ℝ}
+    (hA : ∀ g, C02.Spec.noisy (gramMatrix (Kernels.kernel (kind g) (alpha g) (List.ofFn (l g)))
+      (fun i => List.ofFn (x g i))) (noise g) * Ainv g = 1)
+    (S : Matrix (Fin q) (Fin q) ℝ)
+    (hS : S = C02.Spec.sumCov w fun g => C02.Spec.cov
+      (gramMatrix (Kernels.kernel (kind g) (alpha g) (List.ofFn (l g))) (fun j => List.ofFn (xs j)))
+      (crossMatrix (Kernels.kernel (kind g) (alpha g) (List.ofFn (l g))) (fun j => List.ofFn (xs j))
+        (fun i => List.ofFn (x g i)))
+      (Ainv g))
+    (U V : Matrix (Fin q) (Fin q) ℝ) (E : Fin q → ℝ) (Q : Matrix (Fin q) m ℝ) (R : Matrix m (Fin q) ℝ)
+    (hsvd : S = U * diagonal E * Vᵀ) (hU : Uᵀ * U = 1) (hV : Vᵀ * V = 1) (hE : ∀ i, 0 ≤ E i)
+    (hQR : (U * diagonal (fun i => Real.sqrt (E i)))ᵀ = Q * R) (hQ : Qᵀ * Q = 1) :
+    Rᵀ * Rᵀᵀ = S :=
+  fallback_factor_of_svd S U V E Q R
+    (hS ▸ gpsum_posterior_cov_posSemidef w kind ha l nobs x xs hn hA) hsvd hU hV hE hQR hQ
+
+/-- 4c. Sampling the sum component by component: every component is sampled with the fallback's factor of
+    its own posterior covariance; with jointly standardised latents the draw `Σ_g w_g (m_g + L_g z_g)` has
+    covariance `Σ_g w_g² Σ_g` — the matrix `C02.Spec.sumCov` that `compute_covariance_of_points` reports. -/
+theorem gpsum_posterior_samples_cov {Ω : Type*} [DecidableEq γ] (P : Expectation Ω)
+    (w : γ → ℝ) (kind : γ → Kernels.Kind) {alpha : γ → ℝ}
+    (ha : ∀ g, 0 ≤ alpha g) (l : γ → Fin d → ℝ) (nobs : γ → ℕ) (x : ∀ g, Fin (nobs g) → Fin d → ℝ)
+    (xs : Fin q → Fin d → ℝ) {noise : ∀ g, Fin (nobs g) → ℝ} (hn : ∀ g i, 0 < noise g i)
+    {Ainv : ∀ g, Matrix (Fin (nobs g)) (Fin (nobs g)) ℝ}
+    (hA : ∀ g, C02.Spec.noisy (gramMatrix (Kernels.kernel (kind g) (alpha g) (List.ofFn (l g)))
+      (fun i => List.ofFn (x g i))) (noise g) * Ainv g = 1)
+    (U V : γ → Matrix (Fin q) (Fin q) ℝ) (E : γ → Fin q → ℝ) (Q : γ → Matrix (Fin q) m ℝ)
+    (R : γ → Matrix m (Fin q) ℝ)
+    (hsvd : ∀ g, C02.Spec.cov
+      (gramMatrix (Kernels.kernel (kind g) (alpha g) (List.ofFn (l g))) (fun j => List.ofFn (xs j)))
+      (crossMatrix (Kernels.kernel (kind g) (alpha g) (List.ofFn (l g))) (fun j => List.ofFn (xs j))
+        (fun i => List.ofFn (x g i)))
+      (Ainv g) = U g * diagonal (E g) * (V g)ᵀ)
+    (hU : ∀ g, (U g)ᵀ * U g = 1) (hV : ∀ g, (V g)ᵀ * V g = 1) (hE : ∀ g i, 0 ≤ E g i)
+    (hQR : ∀ g, (U g * diagonal (fun i => Real.sqrt (E g i)))ᵀ = Q g * R g) (hQ : ∀ g, (Q g)ᵀ * Q g = 1)
+    (mean : γ → Fin q → ℝ) (z : γ → m → Ω → ℝ)
+    (hz0 : meanVec P (joint z) = 0) (hz1 : covMat P (joint z) = 1) :
+    meanVec P (sumAffine w mean (fun g => (R g)ᵀ) z) = (fun i => ∑ g, w g * mean g i) ∧
+      covMat P (sumAffine w mean (fun g => (R g)ᵀ) z) = C02.Spec.sumCov w fun g => C02.Spec.cov
+        (gramMatrix (Kernels.kernel (kind g) (alpha g) (List.ofFn (l g))) (fun j => List.ofFn (xs j)))
+        (crossMatrix (Kernels.kernel (kind g) (alpha g) (List.ofFn (l g))) (fun j => List.ofFn (xs j))
+          (fun i => List.ofFn (x g i)))
+        (Ainv g) :=
+  gpsum_sample_cov P w mean (fun g => (R g)ᵀ) _ z hz0 hz1 fun g =>
+    gp_posterior_fallback_factor (kind g) (ha g) (l g) (x g) xs (hn g) (hA g) _ rfl (U g) (V g) (E g)
+      (Q g) (R g) (hsvd g) (hU g) (hV g) (hE g) (hQR g) (hQ g)
+
+/-- 5. Non-vacuity of `gp_posterior_fallback_factor`: two observed points 0 and 1 on the line, one query
+    point 1/2, square exponential kernel with `alpha = 1`, length scale 1, noise variance 1/10 on both
+    observations, `Ainv = A⁻¹`.  Every hypothesis holds with `U = V = Q = 1`, `E = (S₀₀)`, `R = (√S₀₀)`. -/
+example :
+    let k := Kernels.kernel Kernels.Kind.se (1 : ℝ) (List.ofFn ![(1 : ℝ)])
+    let X : Fin 2 → List ℝ := fun i => List.ofFn ((![![0], ![1]] : Fin 2 → Fin 1 → ℝ) i)
+    let Qp : Fin 1 → List ℝ := fun j => List.ofFn ((![![1 / 2]] : Fin 1 → Fin 1 → ℝ) j)
+    let noise : Fin 2 → ℝ := fun _ => 1 / 10
+    ∃ (Ainv : Matrix (Fin 2) (Fin 2) ℝ) (S U V : Matrix (Fin 1) (Fin 1) ℝ) (E : Fin 1 → ℝ)
+      (Q R : Matrix (Fin 1) (Fin 1) ℝ),
+      (0 : ℝ) ≤ 1 ∧ (∀ i, 0 < noise i) ∧ C02.Spec.noisy (gramMatrix k X) noise * Ainv = 1 ∧
+      S = C02.Spec.cov (gramMatrix k Qp) (crossMatrix k Qp X) Ainv ∧
+      S = U * diagonal E * Vᵀ ∧ Uᵀ * U = 1 ∧ Vᵀ * V = 1 ∧ (∀ i, 0 ≤ E i) ∧
+      (U * diagonal (fun i => Real.sqrt (E i)))ᵀ = Q * R ∧ Qᵀ * Q = 1 ∧ Rᵀ * Rᵀᵀ = S := by
+  intro k X Qp noise
+  have hn : ∀ i : Fin 2, 0 < noise i := fun _ => by norm_num [noise]
+  have hpd : (C02.Spec.noisy (gramMatrix k X) noise).PosDef :=
+    C02.radial_noisy_posDef_of_noise_pos Kernels.Kind.se zero_le_one ![(1 : ℝ)] ![![0], ![1]] hn
+  have hA := C02.posDef_mul_inv hpd
+  have hpsd : (C02.Spec.cov (gramMatrix k Qp) (crossMatrix k Qp X)
+      (C02.Spec.noisy (gramMatrix k X) noise)⁻¹).PosSemidef :=
+    C02.radial_post_cov_posSemidef_of_noise_pos Kernels.Kind.se zero_le_one ![(1 : ℝ)] ![![0], ![1]]
+      ![![1 / 2]] hn hA
+  obtain ⟨h1, h2, h3⟩ := svd_qr_one_by_one _ hpsd
+  exact ⟨_, _, 1, 1, _, 1, _, zero_le_one, hn, hA, rfl, h1, by simp, by simp, h2, h3, by simp,
+    gp_posterior_fallback_factor Kernels.Kind.se zero_le_one ![(1 : ℝ)] ![![0], ![1]] ![![1 / 2]] hn hA
+      _ rfl 1 1 _ 1 _ h1 (by simp) (by simp) h2 h3 (by simp)⟩
+
+/-- Non-vacuity with a non-zero covariance computed in closed form: one observed point, queried at that
+    same point, `alpha = 1`, noise variance 1/10: `A = (11/10)`, `Ainv = (10/11)`, `S = 1 − 10/11 = (1/11)`,
+    `U = V = Q = 1`, `E = (1/11)`, `R = (√(1/11))`; any radial kind, any length scale. -/
+example (kind : Kernels.Kind) (ls : ℝ) :
+    let k := Kernels.kernel kind (1 : ℝ) (List.ofFn ![ls])
+    let X : Fin 1 → List ℝ := fun i => List.ofFn ((![![0]] : Fin 1 → Fin 1 → ℝ) i)
+    let noise : Fin 1 → ℝ := fun _ => 1 / 10
+    let Ainv : Matrix (Fin 1) (Fin 1) ℝ := diagonal fun _ => 10 / 11
+    let S : Matrix (Fin 1) (Fin 1) ℝ := diagonal fun _ => 1 / 11
+    let R : Matrix (Fin 1) (Fin 1) ℝ := diagonal fun _ => Real.sqrt (1 / 11)
+    (∀ i, 0 < noise i) ∧ C02.Spec.noisy (gramMatrix k X) noise * Ainv = 1 ∧
+      S = C02.Spec.cov (gramMatrix k X) (crossMatrix k X X) Ainv ∧
+      S = (1 : Matrix (Fin 1) (Fin 1) ℝ) * diagonal (fun _ => 1 / 11) * (1 : Matrix (Fin 1) (Fin 1) ℝ)ᵀ ∧
+      ((1 : Matrix (Fin 1) (Fin 1) ℝ) * diagonal (fun _ => Real.sqrt (1 / 11)))ᵀ
+        = (1 : Matrix (Fin 1) (Fin 1) ℝ) * R ∧
+      Rᵀ * Rᵀᵀ = S ∧ S ≠ 0 := by
+  intro k X noise Ainv S R
+  have hn : ∀ i : Fin 1, 0 < noise i := fun _ => by norm_num [noise]
+  have hA : C02.Spec.noisy (gramMatrix k X) noise * Ainv = 1 := by
+    ext i j; fin_cases i; fin_cases j
+    simp [C02.Spec.noisy, Matrix.mul_apply, k, noise, Ainv, C03.kernel_self]
+    norm_num
+  have hS : S = C02.Spec.cov (gramMatrix k X) (crossMatrix k X X) Ainv := by
+    ext i j; fin_cases i; fin_cases j
+    simp [C02.Spec.cov, Matrix.mul_apply, k, S, Ainv, C03.kernel_self]
+    norm_num
+  have hsvd : S = (1 : Matrix (Fin 1) (Fin 1) ℝ) * diagonal (fun _ => 1 / 11)
+      * (1 : Matrix (Fin 1) (Fin 1) ℝ)ᵀ := by simp [S]
+  have hQR : ((1 : Matrix (Fin 1) (Fin 1) ℝ) * diagonal (fun _ => Real.sqrt (1 / 11)))ᵀ
+      = (1 : Matrix (Fin 1) (Fin 1) ℝ) * R := by simp [R]
+  refine ⟨hn, hA, hS, hsvd, hQR, ?_, ?_⟩
+  · exact gp_posterior_fallback_factor kind zero_le_one ![ls] ![![0]] ![![0]] hn hA S hS 1 1
+      (fun _ => 1 / 11) 1 R hsvd (by simp) (by simp) (fun _ => by norm_num) hQR (by simp)
+  · intro h
+    have := congrFun (congrFun h 0) 0
+    simp [S] at this
+
+end compose
 
 end C17
